@@ -1,8 +1,8 @@
 package c16
 
 // Generators: transactions built from plans (valid and invalid by construction), single-byte and
-// structural mutations of small accepted transactions, and the deterministic probes of the two
-// known crash classes.
+// structural mutations of small accepted transactions, and the regression probes of the two
+// repaired crash classes.
 
 import (
 	"bytes"
@@ -540,14 +540,16 @@ func (d *Drv) Single(k *Key) *Plan {
 	return &Plan{U: d.RandUnsigned(), Sets: []*SetPlan{{Keys: []*Key{k}, M: 1, Signers: []*Key{k}}}}
 }
 
-// Probes replays the witnesses of the two known crash classes on the implementation.
+// Probes rebuilds, with this run's keys, the witnesses of the two crash classes that C16 found and
+// c4422b91 repaired (fixed byte strings of the same witnesses are in corpus/C16 and run first):
+// the crypto library's Verify panics on them, the validator must answer with an error.
 func (d *Drv) Probes() {
 	// (a) Ethereum-style key, KECCAK-scheme signature cut to 10 bytes
 	k := d.KindKey("eth-secp256k1", 0)
 	b := d.Assemble(d.Single(k))
 	b.Sigs[0][0] = b.Sigs[0][0][:10]
 	b.encode()
-	d.DoTx(Input{Kind: "probe:eth-key-short-signature"}, b.Raw, b.AllKeys())
+	d.DoTx(Input{Kind: "probe:eth-key-short-signature", Expect: "reject"}, b.Raw, b.AllKeys())
 	// (b) ECDSA key on sm2p256v1 in uncompressed form with a damaged Y, any in-range ECDSA signature
 	w := d.KindKey("ecdsa-sm2p256v1", 0)
 	ser := UncompressedSer(w, true)
@@ -555,7 +557,7 @@ func (d *Drv) Probes() {
 	pb.PushBytes(ser)
 	pb.PushOpCode(neovm.CHECKSIG)
 	pl := &Plan{U: d.RandUnsigned(), Sets: []*SetPlan{{Keys: []*Key{w}, M: 1, Signers: []*Key{w}, Script: pb.Finish()}}}
-	d.One("probe:off-curve-key", pl, "")
+	d.One("probe:off-curve-key", pl, "reject")
 	// the same key in uncompressed form with the right Y: accepted (alternative key encoding)
 	pb2 := program.NewProgramBuilder()
 	pb2.PushBytes(UncompressedSer(w, false))
